@@ -349,9 +349,9 @@ func check(c *pbt.Ctx, cs Case) {
 
 var Prop = pbt.Register(pbt.Prop[Case]{
 	Name: "TestProtoToJSON",
-	Rule: "generated proto3 schema + reference-encoded message (uint64/fixed64 >= 2^63, fixed32/uint32 >= 2^31, negative int32, non-finite floats, every supported map key kind, empty containers), optionally with unknown fields injected at every message level; options Int642String, DisallowUnknownField, Do / DoInto with small buffers, optionally right after a rejected conversion of the truncated message; the returned document must stay intact during a second conversion of a same-shaped message with other text; output must be an error or valid JSON (strict reader: no duplicate members, nothing after the value) keyed by JSON names whose values equal the reference-decoded values (big.Int for integers, ParseFloat for floats, base64 for bytes, stringified map keys); non-trivial = a repeated field, a map field and a 64-bit/unsigned field present",
+	Rule: "generated proto3 schema + reference-encoded message (uint64/fixed64 >= 2^63, fixed32/uint32 >= 2^31, negative int32, non-finite floats, every supported map key kind, empty containers), repeated numeric fields also declared [packed = false], optionally with unknown fields injected at every message level; options Int642String, DisallowUnknownField, Do / DoInto with small buffers, optionally right after a rejected conversion of the truncated message; the returned document must stay intact during a second conversion of a same-shaped message with other text; output must be an error or valid JSON (strict reader: no duplicate members, nothing after the value) keyed by JSON names whose values equal the reference-decoded values (big.Int for integers, ParseFloat for floats, base64 for bytes, stringified map keys); non-trivial = a repeated field, a map field and a 64-bit/unsigned field present",
 	Gen: func(t *rapid.T) Case {
-		sc := pmodel.GenSchema(t, pmodel.GenOpts{AllKinds: rapid.IntRange(0, 2).Draw(t, "allKinds") == 0, KeyKinds: pmodel.SupportedKeyKinds})
+		sc := pmodel.GenSchema(t, pmodel.GenOpts{Unpacked: true, AllKinds: rapid.IntRange(0, 2).Draw(t, "allKinds") == 0, KeyKinds: pmodel.SupportedKeyKinds})
 		comp, err := pmodel.Compile(sc.Render(), sc.Main)
 		if err != nil {
 			t.Fatalf("generator produced an invalid schema: %v", err)
